@@ -81,7 +81,78 @@ def _is_none_test(name):
     return p
 
 
+def check_find_start_by_lengths(c, repo):
+    """Where buffer.find() starts, for every combination of small lengths: the routine's syntax tree is evaluated (sa/minieval.py) on
+    representatives of a box of (len(buffer), freshlen, len(s), window size) -- the strings stand for their lengths only, find() is a
+    hook that records its start argument and reports "not found".  Python's own reading of a negative / too large start is applied.
+    Returns the number of combinations evaluated (0 when the routine cannot be evaluated: AnalysisError)."""
+    from ..minieval import Evaluator
+    f = repo.func('expect:searcher_string.search')
+    buf, fresh, wpar = f.params[1], f.params[2], f.params[3]
+    finds = [k for k in calls_in(f.node) if callee_last(k) == 'find']
+    c.need(len(finds) >= 1, 'searcher_string.search: no find() call')
+    ftexts = set(norm(k.func) for k in finds)
+    bad_none, bad_win, skipped, n = None, None, None, 0
+    for buflen in range(0, 7):
+        for fl in range(0, buflen + 1):
+            for slen in range(1, 5):
+                for W in (None, 1, 2, 3, 5, 8):
+                    seen = []
+
+                    def hook(args, e_, seen=seen):
+                        seen.append(args)
+                        return -1
+                    ev = Evaluator(env={buf: 'x' * buflen, fresh: fl, wpar: W, 'self._strings': [(0, 'y' * slen)], 'self': {}},
+                                   hooks=dict((t, hook) for t in ftexts), what='searcher_string.search')
+                    kind, val = ev.call(f.node)
+                    n += 1
+                    if kind != 'return' or val != -1:
+                        raise AnalysisError('searcher_string.search: evaluation on lengths did not end in "no match" (%s %r)' % (kind, val))
+                    if not seen:
+                        if slen <= buflen and skipped is None:
+                            skipped = (buflen, fl, slen, W)
+                        continue
+                    a = seen[0]
+                    if len(a) < 2 or not isinstance(a[1], int) or len(a) > 2:
+                        raise AnalysisError('searcher_string.search: find() is not called as find(s, <start>)')
+                    st = a[1]
+                    eff = max(0, buflen + st) if st < 0 else min(st, buflen)
+                    if W is None:
+                        need = max(0, buflen - fl - (slen - 1))
+                        if eff > need and bad_none is None:
+                            bad_none = (buflen, fl, slen, st, eff, need)
+                    else:
+                        need = max(0, buflen - W)
+                        if eff != need and bad_win is None:
+                            bad_win = (buflen, W, slen, st, eff, need)
+    c.check(bad_none is None, f, finds[0], 'without a window the search starts no later than len(buffer) - freshlen - (len(s)-1), for every combination of small lengths',
+            witness=None if bad_none is None else 'len(buffer)=%d freshlen=%d len(s)=%d: find(s, %d) starts at %d, an occurrence may begin at %d' % bad_none, kind='alg', tag='lookback-by-lengths')
+    c.check(bad_win is None, f, finds[0], 'with a window the search starts exactly W characters from the end (at 0 when the buffer is shorter), for every combination of small lengths',
+            witness=None if bad_win is None else 'len(buffer)=%d W=%d len(s)=%d: find(s, %d) starts at %d, not at %d' % bad_win, kind='alg', tag='window-by-lengths')
+    c.check(skipped is None, f, finds[0], 'every search string that fits into the buffer is looked for',
+            witness=None if skipped is None else 'len(buffer)=%d freshlen=%d len(s)=%d W=%r: find() is not called' % skipped, kind='alg', tag='all-strings-by-lengths')
+    return n
+
+
 def check_find_offset(c, repo):
+    # the start of the search decided for every combination of small lengths, however the routine computes it ...
+    try:
+        n_eval = check_find_start_by_lengths(c, repo)
+    except AnalysisError as e:
+        n_eval, why_not = 0, str(e)
+    # ... and symbolically (for ALL lengths) for the shape the routine has at the pinned snapshot; when the shape is not recognised
+    # the evaluation above stands alone
+    try:
+        _check_find_offset_symbolic(c, repo)
+    except AnalysisError as e:
+        if not n_eval:
+            raise
+        f = repo.func('expect:searcher_string.search')
+        c.ok(f, None, 'note: the symbolic offset rule does not apply to this shape (%s); the start of the search was evaluated on %d combinations of lengths' % (str(e)[:80], n_eval),
+             kind='alg', tag='symbolic-n/a')
+
+
+def _check_find_offset_symbolic(c, repo):
     f = repo.func('expect:searcher_string.search')
     finds = [k for k in calls_in(f.node) if callee_last(k) == 'find']
     c.need(len(finds) == 1 and len(finds[0].args) == 2, 'searcher_string.search: buffer.find(s, offset) not found')
